@@ -35,8 +35,10 @@ def write_evidence(pid, tier, seed, mod, st, wall, nviol, known, harness_error=F
         "wall_s": round(wall, 2),
         "violations": nviol,
     }
-    os.makedirs(os.path.join(ROOT, "evidence"), exist_ok=True)
-    tmp = os.path.join(ROOT, "evidence", pid + ".json.tmp")
+    # VERIF_EVIDENCE_DIR: used by the mutation tooling so that runs on a mutated tree do not overwrite the real evidence
+    edir = os.environ.get("VERIF_EVIDENCE_DIR") or os.path.join(ROOT, "evidence")
+    os.makedirs(edir, exist_ok=True)
+    tmp = os.path.join(edir, pid + ".json.tmp")
     with open(tmp, "w") as f:
         json.dump(ev, f, indent=1, default=str)
-    os.replace(tmp, os.path.join(ROOT, "evidence", pid + ".json"))
+    os.replace(tmp, os.path.join(edir, pid + ".json"))
